@@ -246,8 +246,14 @@ Record flt := mkf { fprop : ustring; fop_ : fop; fval : pv }.
    compared as an instant with a timestamp filter value.                 *)
 Inductive ts_mode := TextOnDicts | InstantOnDicts.
 
-(* Filter._check_property: the conversion of the filter value *)
-Definition coerce (mode : ts_mode) (x fv : pv) : res (pv * pv) :=
+(* Filter._check_property: the conversion of the filter value.  In the
+   repaired reading the conversion of text to instants applies to the six
+   comparison operators only (membership of a timestamp in a string stays
+   what it is).                                                          *)
+Definition is_cmp_op (o : fop) : bool :=
+  match o with OIn | OContains => false | _ => true end.
+
+Definition coerce (mode : ts_mode) (o : fop) (x fv : pv) : res (pv * pv) :=
   match x, fv with
   | VTime _, VStr s =>
       match parse_ts s with Some t => Ok (x, VTime t) | None => Raise EValueError end
@@ -255,12 +261,16 @@ Definition coerce (mode : ts_mode) (x fv : pv) : res (pv * pv) :=
       match mode with
       | TextOnDicts => Ok (x, fv)
       | InstantOnDicts =>
-          match parse_ts xs, parse_ts s with Some a, Some b => Ok (VTime a, VTime b) | _, _ => Ok (x, fv) end
+          if is_cmp_op o then
+            match parse_ts xs, parse_ts s with Some a, Some b => Ok (VTime a, VTime b) | _, _ => Ok (x, fv) end
+          else Ok (x, fv)
       end
   | VStr xs, VTime _ =>
       match mode with
       | TextOnDicts => Ok (x, fv)
-      | InstantOnDicts => match parse_ts xs with Some a => Ok (VTime a, fv) | None => Ok (x, fv) end
+      | InstantOnDicts =>
+          if is_cmp_op o then match parse_ts xs with Some a => Ok (VTime a, fv) | None => Ok (x, fv) end
+          else Ok (x, fv)
       end
   | _, _ => Ok (x, fv)
   end.
@@ -270,7 +280,7 @@ Definition dict_values (x : pv) : res pv :=
 
 (* Filter._check_property, one branch per operator *)
 Definition check_property (mode : ts_mode) (f : flt) (x0 : pv) : res bool :=
-  bind (coerce mode x0 (fval f)) (fun '(x, fv) =>
+  bind (coerce mode (fop_ f) x0 (fval f)) (fun '(x, fv) =>
   match fop_ f with
   | OEq => Ok (py_eq x fv)
   | ONe => Ok (negb (py_eq x fv))
@@ -418,8 +428,6 @@ Definition pset_union (s : pset) (l : list pv) : pset := fold_left (fun acc x =>
 Definition pset_inter (s : pset) (l : list pv) : pset := filter (fun x => pset_mem x l) s.
 Definition pset_diff (s t : pset) : pset := filter (fun x => negb (pset_mem x t)) s.
 
-Definition all_hashable (l : list pv) : bool := forallb hashable l.
-
 (* hasattr(value, "__iter__") and not isinstance(value, str); the elements *)
 Definition adding_seq (value : pv) : option (list pv) :=
   match value with
@@ -428,20 +436,57 @@ Definition adding_seq (value : pv) : option (list pv) :=
   | _ => None
   end.
 
-(* _update_allow *)
-Definition update_allow (allow : option pset) (value : pv) : res pset :=
-  match allow with
-  | None =>
-      match adding_seq value with
-      | Some l => if all_hashable l then Ok (pset_union [] l) else Raise ETypeError        (* allow_set.update(value) *)
-      | None => if hashable value then Ok (pset_add value []) else Raise ETypeError          (* allow_set.add(value) *)
-      end
-  | Some s =>
-      match adding_seq value with
-      | Some l => if all_hashable l then Ok (pset_inter s l) else Raise ETypeError         (* intersection_update(value) *)
-      | None => if hashable value then Ok (pset_inter s [value]) else Raise ETypeError       (* intersection_update({value}) *)
-      end
+Fixpoint map_res {A B} (g : A -> res B) (l : list A) : res (list B) :=
+  match l with
+  | [] => Ok []
+  | x :: l' => bind (g x) (fun y => bind (map_res g l') (fun ys => Ok (y :: ys)))
   end.
+
+(* What _update_allow is handed: one value, or an iterable whose elements are
+   produced one at a time by `g` (the identity for a tuple / list / dict, and
+   get_type_from_id for the generator expressions of
+   _find_search_optimizations; `g` may raise, and it raises when the element
+   is reached, not before).                                               *)
+Inductive upd := USingle (v : pv) | USeq (g : pv -> res pv) (l : list pv).
+
+(* allow_set.update(iterable): every element is produced and hashed *)
+Fixpoint iter_all (g : pv -> res pv) (acc : pset) (l : list pv) : res pset :=
+  match l with
+  | [] => Ok acc
+  | x :: l' => bind (g x) (fun y => if hashable y then iter_all g (pset_add y acc) l' else Raise ETypeError)
+  end.
+
+(* allow_set.intersection_update(iterable that is not a set): CPython's
+   set_intersection produces and hashes the elements one at a time and STOPS
+   as soon as every member of the set has been met (the result has reached
+   the size of the set), so later elements are never produced -- a later
+   element that would raise does not.  Returns the elements met.          *)
+Fixpoint iter_until (g : pv -> res pv) (s : pset) (seen : list pv) (l : list pv) : res (list pv) :=
+  match l with
+  | [] => Ok seen
+  | x :: l' =>
+      bind (g x) (fun y =>
+      if hashable y then
+        let seen' := y :: seen in
+        if pset_mem y s && forallb (fun z => pset_mem z seen') s then Ok seen'
+        else iter_until g s seen' l'
+      else Raise ETypeError)
+  end.
+
+(* _update_allow *)
+Definition update_allow (allow : option pset) (v : upd) : res pset :=
+  match allow, v with
+  | None, USingle x => if hashable x then Ok (pset_add x []) else Raise ETypeError          (* allow_set.add(value) *)
+  | None, USeq g l => iter_all g [] l                                                        (* allow_set.update(value) *)
+  | Some s, USingle x => if hashable x then Ok (pset_inter s [x]) else Raise ETypeError      (* intersection_update({value}) *)
+  | Some s, USeq g l => bind (iter_until g s [] l) (fun seen => Ok (pset_inter s seen))      (* intersection_update(value) *)
+  end.
+
+Definition ok_id (x : pv) : res pv := Ok x.
+
+(* how _update_allow sees a filter value *)
+Definition upd_of_value (value : pv) : upd :=
+  match adding_seq value with Some l => USeq ok_id l | None => USingle value end.
 
 (* utils.get_type_from_id: stix_id.split('--', 1)[0] *)
 Fixpoint type_of_id (s : ustring) : ustring :=
@@ -453,12 +498,6 @@ Fixpoint type_of_id (s : ustring) : ustring :=
 
 Definition get_type_from_id (v : pv) : res pv :=
   match v with VStr s => Ok (VStr (type_of_id s)) | _ => Raise EAttributeError end.
-
-Fixpoint map_res {A B} (g : A -> res B) (l : list A) : res (list B) :=
-  match l with
-  | [] => Ok []
-  | x :: l' => bind (g x) (fun y => bind (map_res g l') (fun ys => Ok (y :: ys)))
-  end.
 
 Inductive auth := Auth (white : bool) (values : pset).     (* AuthSet.WHITE / BLACK *)
 
@@ -474,12 +513,32 @@ Record opt_state := mkst { al_types : option pset; al_ids : option pset; pr_type
 Definition t_type : ustring := u "type".
 Definition t_id : ustring := u "id".
 
+(* Defect variant.  OptAnyValue mirrors the code: a shortcut is derived from
+   whatever value a type / id filter carries (a string given to `in` is taken
+   as one name although the filter itself means "is a substring of"; a number
+   reaches get_type_from_id or `value + ext` and raises).  OptStringsOnly is
+   the repaired reading (proposed_fixes/C12-fs-shortcuts-only-from-strings.diff):
+   a shortcut is derived only from a string (=, !=) or a list / tuple of
+   strings (in); every other filter is left to the per-object check.      *)
+Inductive opt_mode := OptAnyValue | OptStringsOnly.
+
+Definition is_vstr (x : pv) : bool := match x with VStr _ => true | _ => false end.
+Definition is_str_seq (x : pv) : bool :=
+  match x with VTuple l | VList l => forallb is_vstr l | _ => false end.
+
+Definition opt_guard (om : opt_mode) (f : flt) : bool :=
+  match om with
+  | OptAnyValue => true
+  | OptStringsOnly => match fop_ f with OIn => is_str_seq (fval f) | _ => is_vstr (fval f) end
+  end.
+
 (* one iteration of the loop of _find_search_optimizations *)
-Definition opt_step (st : opt_state) (f : flt) : res opt_state :=
-  if ustr_eqb (fprop f) t_type then
+Definition opt_step (om : opt_mode) (st : opt_state) (f : flt) : res opt_state :=
+  if negb (opt_guard om f) then Ok st
+  else if ustr_eqb (fprop f) t_type then
     match fop_ f with
     | OEq | OIn =>
-        bind (update_allow (al_types st) (fval f)) (fun a =>
+        bind (update_allow (al_types st) (upd_of_value (fval f))) (fun a =>
         Ok (mkst (Some a) (al_ids st) (pr_types st) (pr_ids st)))
     | ONe =>
         if hashable (fval f) then Ok (mkst (al_types st) (al_ids st) (pset_add (fval f) (pr_types st)) (pr_ids st))
@@ -489,39 +548,40 @@ Definition opt_step (st : opt_state) (f : flt) : res opt_state :=
   else if ustr_eqb (fprop f) t_id then
     match fop_ f with
     | OEq =>
-        bind (update_allow (al_ids st) (fval f)) (fun ai =>
+        bind (update_allow (al_ids st) (upd_of_value (fval f))) (fun ai =>
         bind (get_type_from_id (fval f)) (fun t =>
-        bind (update_allow (al_types st) t) (fun at_ =>
+        bind (update_allow (al_types st) (USingle t)) (fun at_ =>
         Ok (mkst (Some at_) (Some ai) (pr_types st) (pr_ids st)))))
     | ONe =>
         if hashable (fval f) then Ok (mkst (al_types st) (al_ids st) (pr_types st) (pset_add (fval f) (pr_ids st)))
         else Raise ETypeError
     | OIn =>
-        bind (update_allow (al_ids st) (fval f)) (fun ai =>
-        match fval f with
-        | VStr s =>       (* iterating a str yields its characters *)
-            bind (update_allow (al_types st) (VTuple (map (fun c => VStr (type_of_id [c])) s))) (fun at_ =>
+        bind (update_allow (al_ids st) (upd_of_value (fval f))) (fun ai =>
+        (* (get_type_from_id(id_) for id_ in filter_.value): iter(value) is taken at once *)
+        match (match fval f with
+               | VStr s => Some (map (fun c => VStr [c]) s)       (* iterating a str yields its characters *)
+               | v => adding_seq v
+               end) with
+        | Some l =>
+            bind (update_allow (al_types st) (USeq get_type_from_id l)) (fun at_ =>
             Ok (mkst (Some at_) (Some ai) (pr_types st) (pr_ids st)))
-        | _ =>
-            match adding_seq (fval f) with
-            | Some l =>
-                bind (map_res get_type_from_id l) (fun ts =>
-                bind (update_allow (al_types st) (VTuple ts)) (fun at_ =>
-                Ok (mkst (Some at_) (Some ai) (pr_types st) (pr_ids st))))
-            | None => Raise ETypeError     (* 'int' object is not iterable *)
-            end
+        | None => Raise ETypeError     (* 'int' object is not iterable *)
         end)
     | _ => Ok st
     end
   else Ok st.
 
-Fixpoint opt_fold (st : opt_state) (fl : list flt) : res opt_state :=
+Fixpoint opt_fold (om : opt_mode) (st : opt_state) (fl : list flt) : res opt_state :=
   match fl with
   | [] => Ok st
-  | f :: fl' => bind (opt_step st f) (fun st' => opt_fold st' fl')
+  | f :: fl' => bind (opt_step om st f) (fun st' => opt_fold om st' fl')
   end.
 
-(* the tail of _find_search_optimizations: build the AuthSets, second pass *)
+(* the tail of _find_search_optimizations: build the AuthSets, second pass.
+   Both intersection_update calls iterate generator expressions over
+   opt_ids.values; an id that is not a string raises AttributeError in one of
+   them whatever the iteration order of the set is (the early exit of the
+   first can only skip it for the second to meet it).                    *)
 Definition opt_finish (st : opt_state) : res (auth * auth) :=
   let at_ := mk_auth (al_types st) (pr_types st) in
   let ai := mk_auth (al_ids st) (pr_ids st) in
@@ -529,13 +589,13 @@ Definition opt_finish (st : opt_state) : res (auth * auth) :=
   | Auth true tv, Auth true iv =>
       bind (map_res get_type_from_id iv) (fun its =>
       let tv' := pset_inter tv its in
-      bind (map_res (fun i => bind (get_type_from_id i) (fun t => Ok (pset_mem t tv'))) iv) (fun keep =>
-      Ok (Auth true tv', Auth true (map fst (filter snd (combine iv keep))))))
+      Ok (Auth true tv',
+          Auth true (map fst (filter (fun it => pset_mem (snd it) tv') (combine iv its)))))
   | _, _ => Ok (at_, ai)
   end.
 
-Definition find_opts (fl : list flt) : res (auth * auth) :=
-  bind (opt_fold (mkst None None [] []) fl) opt_finish.
+Definition find_opts (om : opt_mode) (fl : list flt) : res (auth * auth) :=
+  bind (opt_fold om (mkst None None [] []) fl) opt_finish.
 
 (* ------------------------------------------------------------------ *)
 (* The directory tree.  Level 1: type directories; level 2: id
@@ -692,13 +752,13 @@ Fixpoint search_dirs (mode : ts_mode) (fl : list flt) (dirs : list (ustring * li
   end.
 
 (* FileSystemSource.query on the already combined filter list *)
-Definition fs_search (mode : ts_mode) (t : fs) (fl : list flt) : res (list pv) :=
-  bind (find_opts fl) (fun '(at_, ai) =>
+Definition fs_search (mode : ts_mode) (om : opt_mode) (t : fs) (fl : list flt) : res (list pv) :=
+  bind (find_opts om fl) (fun '(at_, ai) =>
   bind (matching_type_dirs t at_) (fun dirs =>
   search_dirs mode fl dirs ai)).
 
-Definition fs_query (mode : ts_mode) (t : fs) (q attached comp : list flt) : res (list pv) :=
-  fs_search mode t (complete_query q attached comp).
+Definition fs_query (mode : ts_mode) (om : opt_mode) (t : fs) (q attached comp : list flt) : res (list pv) :=
+  fs_search mode om t (complete_query q attached comp).
 
 (* every file content in the tree (what has been stored) *)
 Definition entry_objects (e : tentry) : list pv :=
@@ -780,10 +840,10 @@ Inductive source :=
 | SMem (data : list (pv * mem_entry)) (attached : list flt)
 | SFs (t : fs) (attached : list flt).
 
-Definition source_query (mode : ts_mode) (s : source) (q comp : list flt) : res (list pv) :=
+Definition source_query (mode : ts_mode) (om : opt_mode) (s : source) (q comp : list flt) : res (list pv) :=
   match s with
   | SMem data att => mem_query mode data q att comp
-  | SFs t att => fs_query mode t q att comp
+  | SFs t att => fs_query mode om t q att comp
   end.
 
 (* utils.deduplicate: key (id, modified or created) / id; the last object with a key wins, first position kept *)
@@ -812,9 +872,9 @@ Fixpoint deduplicate (acc : list (pv * pv)) (l : list pv) : res (list pv) :=
   | o :: rest => bind (dedup_key o) (fun k => deduplicate (assoc_set k o acc) rest)
   end.
 
-Definition comp_query (mode : ts_mode) (members : list source) (cattached q outer : list flt) : res (list pv) :=
+Definition comp_query (mode : ts_mode) (om : opt_mode) (members : list source) (cattached q outer : list flt) : res (list pv) :=
   let allf := fset_add (fset_add [] cattached) outer in
-  bind (concat_res (map (fun s => source_query mode s q allf) members)) (fun all_data =>
+  bind (concat_res (map (fun s => source_query mode om s q allf) members)) (fun all_data =>
   match all_data with [] => Ok [] | _ => deduplicate [] all_data end).
 
 (* ------------------------------------------------------------------ *)
@@ -874,12 +934,12 @@ Definition show_result_ix (pop : list pv) (r : res (list pv)) : string :=
    (each optionally wrapped in a CompositeDataSource that carries `comp`), and
    a two-member composite [memory ma; filesystem tb] whose members both carry
    `att`.  One result line.                                              *)
-Definition q_mem (mode : ts_mode) (m : list (pv * mem_entry)) (wrap : bool) (q att comp : list flt) : res (list pv) :=
-  if wrap then comp_query mode [SMem m att] comp q [] else mem_query mode m q att [].
-Definition q_fs (mode : ts_mode) (t : fs) (wrap : bool) (q att comp : list flt) : res (list pv) :=
-  if wrap then comp_query mode [SFs t att] comp q [] else fs_query mode t q att [].
-Definition show3 (mode : ts_mode) (pop : list pv) (m : list (pv * mem_entry)) (t : fs) (ma : list (pv * mem_entry)) (tb : fs)
+Definition q_mem (mode : ts_mode) (om : opt_mode) (m : list (pv * mem_entry)) (wrap : bool) (q att comp : list flt) : res (list pv) :=
+  if wrap then comp_query mode om [SMem m att] comp q [] else mem_query mode m q att [].
+Definition q_fs (mode : ts_mode) (om : opt_mode) (t : fs) (wrap : bool) (q att comp : list flt) : res (list pv) :=
+  if wrap then comp_query mode om [SFs t att] comp q [] else fs_query mode om t q att [].
+Definition show3 (mode : ts_mode) (om : opt_mode) (pop : list pv) (m : list (pv * mem_entry)) (t : fs) (ma : list (pv * mem_entry)) (tb : fs)
            (wrap : bool) (q att comp : list flt) : string :=
-  append (show_result_ix pop (q_mem mode m wrap q att comp)) (append " ## "
-  (append (show_result_ix pop (q_fs mode t wrap q att comp)) (append " ## "
-  (show_result_ix pop (comp_query mode [SMem ma att; SFs tb att] comp q []))))).
+  append (show_result_ix pop (q_mem mode om m wrap q att comp)) (append " ## "
+  (append (show_result_ix pop (q_fs mode om t wrap q att comp)) (append " ## "
+  (show_result_ix pop (comp_query mode om [SMem ma att; SFs tb att] comp q []))))).
